@@ -241,6 +241,10 @@ def TraitMember.fn? : TraitMember → Option TraitFnItem
   | _ => none
 
 /-- the methods of a trait, in source order -/
+def TraitMember.isOther : TraitMember → Bool
+  | .other _ => true
+  | _ => false
+
 def TraitItem.fns (t : TraitItem) : List TraitFnItem := t.members.filterMap TraitMember.fn?
 
 def TraitItem.print (t : TraitItem) : Toks :=
